@@ -4,8 +4,8 @@ From Coq Require Export List NArith Bool Arith.
 Export ListNotations.
 Open Scope N_scope.
 
-Definition byte := N.
-Definition bytes := list N.
+Notation byte := N (only parsing).
+Notation bytes := (list N) (only parsing).
 
 Definition CR : byte := 13.
 Definition LF : byte := 10.
@@ -81,7 +81,7 @@ Fixpoint dec_fuel (fuel : nat) (n : N) (acc : bytes) : bytes :=
   | S f => if n <? 10 then (48 + n) :: acc
            else dec_fuel f (n / 10) ((48 + n mod 10) :: acc)
   end.
-Definition dec (n : N) : bytes := dec_fuel (S (N.size_nat n)) n [].
+Definition dec (n : N) : bytes := dec_fuel (S (N.to_nat (N.log2 n))) n [].
 
 (* decimal rendering of a signed integer (Rust Display for i32) *)
 Definition decZ (z : Z) : bytes :=
